@@ -115,6 +115,12 @@ def instances(env, cfg, family, B, seed):
             grid = torch.randint(0, 9, (B, n + 1, 2), generator=g).float() / 8.0
             td["locs"], td["depot"] = grid[:, 1:], grid[:, 0]
             return td
+        if name == "svrp":
+            # discrete skill levels: requirements meet the technicians' levels with equality (allowed: skill >= requirement)
+            T = td["techs"].shape[-2]
+            td["techs"] = torch.arange(1, T + 1).float().reshape(1, T, 1).expand(B, T, 1).clone()
+            td["skills"] = torch.randint(1, T + 1, (B, n, 1), generator=g).float()
+            return td
         if name == "cvrptw":
             # hand-supplied service durations (the generator only emits zeros; Solomon-style data has them), kept
             # within the documented bound tw_end + d(i,depot) + duration <= max_time
